@@ -134,6 +134,9 @@ def to_real(model):
 def names_st(draw, n, plain):
     if plain:
         return [f"t{i}" for i in range(n)]
+    if draw(st.booleans()):
+        # binomial-style names: letters, digits and single blanks, nothing that needs quoting
+        return [f"sp{i} {draw(st.sampled_from(['x', 'ab', 'c d']))}{i}" for i in range(n)]
     out = []
     seen = set()
     while len(out) < n:
